@@ -613,11 +613,17 @@ class Extract:
                 except Unsupported:
                     if stop_on_unsupported or self.strict:
                         raise
+                    # The target becomes opaque.  Only the result of an inverse function keeps its own name as atom
+                    # (rules reason about `θ = arctan2(..)` through the arguments); anything else gets an atom no
+                    # rule can name, so that an unmodelled formula can never satisfy an obligation by accident.
+                    inverse = isinstance(st.value, ast.Call) and ast.unparse(st.value.func).split(".")[-1] in (
+                        "arctan2", "arcsin", "arccos", "arctan", "arctanh", "arccosh", "arcsinh")
                     for t in st.targets:
                         for nm in ast.walk(t):
                             if isinstance(nm, ast.Name):
                                 self.env.pop(nm.id, None)
-                                self.env[nm.id] = Poly.atom(nm.id)
+                                self.unmodelled = getattr(self, "unmodelled", 0) + 1
+                                self.env[nm.id] = Poly.atom(nm.id if inverse else f"?{nm.id}#{self.unmodelled}")
             elif isinstance(st, ast.AugAssign) and isinstance(st.target, ast.Name):
                 try:
                     cur = self.ev(ast.Name(id=st.target.id, ctx=ast.Load()))
